@@ -43,7 +43,7 @@ F_DUP = "duplicate-bin-names"
 
 
 def plan(tier):
-    return {"ncases": 1200 if tier == "quick" else 24000, "budget_s": 55 if tier == "quick" else 800}
+    return {"ncases": 1200 if tier == "quick" else 40000, "budget_s": 55 if tier == "quick" else 800}
 
 
 def gen_case(rng, tier, idx):
